@@ -71,3 +71,10 @@ Theorem C10_bad_ddl_holds_the_whole_piece : forall p k d r, p <> [] -> Forall pl
   d = DBad false (ppos (cur p)) (last_pend (ppos (cur p)) p) p /\ r = k.
 Proof. exact sp_ddl_bad. Qed.
 Print Assumptions C10_bad_ddl_holds_the_whole_piece.
+
+(* the same under ParseStatement, whichever recover point catches the failure (BadDDL from parseDDL, BadStatement from
+   parseStatementInternal) *)
+Theorem C10_bad_statement_holds_the_whole_piece : forall p k d r, p <> [] -> Forall plainT p -> theaded k -> sp_stmt (p ++ k) = Some (d, r, 1%nat) ->
+  (exists lvl, d = DBad lvl (ppos (cur p)) (last_pend (ppos (cur p)) p) p) /\ r = k.
+Proof. exact sp_stmt_bad. Qed.
+Print Assumptions C10_bad_statement_holds_the_whole_piece.
